@@ -53,6 +53,8 @@ class Gamma:
             self.keys = {"u1": ("alice", "r1"), "u2": rnd.choice([(u2, "r1"), ("alice", ""), (u2, "")]),
                          "u3": ("alice", ("\xe9" * 127 + " ") if encoding == "utf-8" else "r\xe9alm " * 31 + "1234567")}
         self.pws = {"p1": "p\xe4ssword1", "p2": "other pw"}
+        # raw2: sometimes the EMPTY hash text (a record "user:" exists, is listed and exported; no password matches it)
+        self.raw = dict(RAW, raw2=rnd.choice([RAW["raw2"], ""]))
         # refused names: separators, control characters, more than 255 BYTES (not characters)
         self.bad = ["al:ice", "a\nb", "a\rb", "a\tb", "a\x00b", "x" * 256,
                     "\xe9" * 128 if encoding == "utf-8" else "\xe9" * 256, "\xe9" * 200 if encoding == "utf-8" else "y" * 300]
@@ -64,7 +66,7 @@ class Gamma:
     def make_hash(self, key, h):
         """real hash text for an abstract hash (used for initial contents and set_hash)"""
         if h["gen"].startswith("raw"):
-            return RAW[h["gen"]]
+            return self.raw[h["gen"]]
         pw = self.enc_b(self.pws[h["pw"]])
         if self.kind == "htdigest":
             u, r = self.keys[key]
@@ -83,7 +85,7 @@ class Gamma:
 
     def abstract(self, key, text):
         """abstract a real hash text (independent verification where the host allows it)"""
-        for g, t in RAW.items():
+        for g, t in self.raw.items():
             if text == t:
                 return {"pw": "-", "gen": g}
         for pn, pw in self.pws.items():
